@@ -102,8 +102,12 @@ CallLater(s, d, cb) ==
   ELSE [s EXCEPT !.timers = @ \cup {[left |-> d, cb |-> cb, n |-> 1]}]
 \* handle.cancel(): a pending timer disappears; one whose callback was already moved to the ready
 \* queue by this iteration's poll stays queued but is skipped when its turn comes (asyncio)
+\* (trace validation keeps the due timers of an iteration as one "duepool" entry and orders them lazily: SDTrace.tla)
 CancelTimer(s, cb) == [s EXCEPT !.timers = {x \in @ : x.cb # cb},
-                                !.ready = [i \in DOMAIN @ |-> IF @[i] = cb THEN [kind |-> "cancelled"] ELSE @[i]]]
+                                !.ready = [i \in DOMAIN @ |-> IF @[i] = cb THEN [kind |-> "cancelled"]
+                                                               ELSE IF @[i].kind = "duepool"
+                                                               THEN [@[i] EXCEPT !.set = {IF y[1].cb = cb THEN <<[y[1] EXCEPT !.cb = [kind |-> "cancelled", was |-> cb]], y[2]>> ELSE y : y \in @}]
+                                                               ELSE @[i]]]
 Out(s, e) == [s EXCEPT !.outs = Append(@, e)]
 Due(s) == {x \in s.timers : x.left = 0}
 IsIdle(s) == s.ready = <<>> /\ s.todo = 0 /\ Due(s) = {}
